@@ -52,6 +52,9 @@ CHECKS = {
     'C16': dict(engine='tlc-eaomodel', technique=P_TECH + '; ScaledAsset / StructuredAsset as realisation routes of the same TLC output', cat='model_checking', ref='DESIGN.md 4 (C16)',
                 text='Scaled: the configuration states the asset AT scale s (capacities x s/norm, fixed cost s x rate per active tick as part of the step cost in EAOGuards); ScaledAsset(base, min=max=s) must accept exactly the TLC behaviours with equal per-asset value, near-misses rejected; free scale: optimum = best over the lattice of scales on families linear in the scale. Structured: wrapped (StructuredAsset incl. wrapper window clipping inner windows) and flat realisations conform to the same TLC behaviours, equal optimum.',
                 note=P_NOTE + ' Base assets without booleans.'),
+    'C15': dict(engine='tlc-eaoassembly', technique='TLC evaluation of the FixWindow clause on assembly traces of real set-ups with fix_time_window (Trace_EAOAssembly, mode "fix") + re-optimisation histories', cat='model_checking', ref='DESIGN.md 4 (C15)',
+                text='For the zoo of all asset types (several mapping rows per variable, appended variables) and six window forms (masks, index list, date, empty, all) the bounds before/after fixing, the previous solution and the mapping rows are logged; TLC checks that exactly the variables having a mapping row with a step in the window are pinned to the previous value and all others keep their bounds. The history Setup -> Optimize -> Setup(fix) -> Optimize is replayed: value unchanged under unchanged prices, window part unchanged under new prices, the user dictionary re-usable.',
+                note='"belonging to a step in the window" is read as any-row semantics; trusted: TLC, HiGHS for re-optimisation.'),
 }
 
 ENGINES = [
@@ -61,7 +64,7 @@ ENGINES = [
          kind_free_text='TLA+ automaton of Plant/CHP unit commitment (EAOUCGuards, EAOUnitCommit, Trace_EAOUnitCommit) enumerated by TLC; patterns/behaviours replayed into the real MIP; optimised runs trace-validated'),
     dict(name='tlc-eaosolve', path='spec/EAOSolve.tla', serves_properties=['C03'],
          kind_free_text='TLA+ contract of the optimiser (ReturnSolution / ReturnFailure / ReturnInaccurate enabledness) evaluated by TLC on recorded calls'),
-    dict(name='tlc-eaoassembly', path='spec/EAOAssembly.tla', serves_properties=['C07'],
+    dict(name='tlc-eaoassembly', path='spec/EAOAssembly.tla', serves_properties=['C07', 'C15'],
          kind_free_text='TLA+ model of the index/mapping algorithm + Trace_EAOAssembly evaluating the C07/C15 clauses on tables logged from the real assembly'),
     dict(name='tlc-eaotime', path='spec/EAOTime.tla', serves_properties=['C19'],
          kind_free_text='TLA+ specification of time grids / sub-grids / interval data enumerated by TLC; every call replayed on the real Timegrid'),
